@@ -617,6 +617,128 @@ int main(int argc, char **argv) {
         vf::end_cases();
         return 0;
     }
+    if (mode == "alias" && argc >= 3) {
+        // C12: operations whose SOURCE lives inside the value they change, values built over dirty memory, kind changes by tag.
+        // event: {"op":"alias","kind":K,"dst":doc before,"src":doc of the source before,"i":position,"after":doc}; judged by OracleAlias.
+        FILE *out = fopen(argv[2], "w");
+        if (!out) return 2;
+        vf::g_trace = out;
+        long n = 0;
+        auto emit = [&](const char *kind, const std::string &dst, const std::string &src, long i, const V &after) {
+            std::string ja;
+            jdoc(after, ja);
+            fprintf(out, "{\"op\":\"alias\",\"kind\":\"%s\",\"dst\":%s,\"src\":%s,\"i\":%ld,\"after\":%s}\n", kind, dst.c_str(), src.c_str(), i, ja.c_str());
+        };
+        // children of every kind, arrays of 1 / 2 / 4 / 8 elements (full at every doubling capacity) and objects of 1..4 members
+        auto child = [&](int k) -> V {
+            V c;
+            switch (k % 6) {
+                case 0: c = (SizeT64)(7 + k); break;
+                case 1: c = "text that owns memory, long enough not to be stored in place"; break;
+                case 2: c = V::ArrayT(); c += (SizeT64)1; c += "s"; break;
+                case 3: c = V::ObjectT(); c[key_text(2).c_str()] = (SizeT64)5; break;
+                case 4: c = true; break;
+                default: c = 2.5;
+            }
+            return c;
+        };
+        for (int size : {1, 2, 4, 8, 3}) {
+            for (int at = 0; at < size; ++at) {
+                for (int variant = 0; variant < 6; ++variant) {
+                    vf::begin_case(n++);
+                    snprintf(vf::g_desc, sizeof(vf::g_desc), "alias size=%d at=%d variant=%d", size, at, variant);
+                    V arr;
+                    arr = V::ArrayT();
+                    for (int i = 0; i < size; ++i) arr += child(i + variant);
+                    V obj;
+                    obj = V::ObjectT();
+                    for (int i = 0; i < size && i < 4; ++i) obj[key_text(1 + i).c_str()] = child(i + variant);
+                    std::string jd, js;
+                    switch (variant) {
+                        case 0: {   // arr += arr[at]  (the array is full for size 1, 2, 4, 8)
+                            jdoc(arr, jd); jdoc(*arr.GetValue((SizeT)at), js);
+                            arr += *arr.GetValue((SizeT)at);
+                            emit("append-own", jd, js, at, arr);
+                            break;
+                        }
+                        case 1: {   // arr += Move(arr[at])
+                            jdoc(arr, jd); jdoc(*arr.GetValue((SizeT)at), js);
+                            arr += Memory::Move(*arr.GetValue((SizeT)at));
+                            emit("append-own-move", jd, js, at, arr);
+                            break;
+                        }
+                        case 2: {   // v = v[at]   and   v = v[key]
+                            jdoc(arr, jd); jdoc(*arr.GetValue((SizeT)at), js);
+                            arr = *arr.GetValue((SizeT)at);
+                            emit("assign-own", jd, js, at, arr);
+                            if (at < 4) {
+                                const V *m = obj.GetValue(key_text(1 + at).c_str());
+                                if (m != nullptr) {
+                                    std::string jd2, js2;
+                                    jdoc(obj, jd2); jdoc(*m, js2);
+                                    obj = *m;
+                                    emit("assign-own", jd2, js2, at, obj);
+                                }
+                            }
+                            break;
+                        }
+                        case 3: {   // v = Move(v[at])
+                            jdoc(arr, jd); jdoc(*arr.GetValue((SizeT)at), js);
+                            arr = Memory::Move(*arr.GetValue((SizeT)at));
+                            emit("assign-own", jd, js, at, arr);
+                            break;
+                        }
+                        case 4: {   // v.Merge(v) / v += v
+                            jdoc(arr, jd);
+                            arr.Merge(arr);
+                            emit("merge-self", jd, jd, at, arr);
+                            std::string jo;
+                            jdoc(obj, jo);
+                            obj += obj;
+                            emit("merge-self", jo, jo, at, obj);
+                            break;
+                        }
+                        default: {  // a string assigned from a pointer into its own storage
+                            V sv;
+                            sv = "abcdefghijklmnopqrstuvwxyz0123456789";
+                            jdoc(sv, jd);
+                            const char *inner = sv.StringStorage() + (at % 8);
+                            V expect;
+                            expect = std::string(inner).c_str();
+                            jdoc(expect, js);
+                            sv = inner;
+                            emit("assign-own", jd, js, at, sv);
+                        }
+                    }
+                }
+            }
+        }
+        // values constructed over dirty memory, then used as containers / re-tagged / pointed at nothing
+        for (int variant = 0; variant < 8; ++variant) {
+            vf::begin_case(n++);
+            snprintf(vf::g_desc, sizeof(vf::g_desc), "alias dirty variant=%d", variant);
+            alignas(V) unsigned char raw[sizeof(V)];
+            memset(raw, 0xAB, sizeof(raw));
+            V *v = nullptr;
+            std::string jd;
+            switch (variant) {
+                case 0: v = new (raw) V((SizeT64)5); jdoc(*v, jd); (*v)[key_text(1).c_str()] = (SizeT64)1; emit("then-key", jd, jd, 1, *v); break;
+                case 1: v = new (raw) V(2.5); jdoc(*v, jd); *v += (SizeT64)1; emit("then-append", jd, jd, 0, *v); break;
+                case 2: v = new (raw) V((SizeT64I)-7); jdoc(*v, jd); (*v)[SizeT{0}] = (SizeT64)1; emit("then-index", jd, jd, 0, *v); break;
+                case 3: v = new (raw) V("abc", SizeT{3}); *v = (SizeT64)5; jdoc(*v, jd); (*v)[key_text(1).c_str()] = (SizeT64)1; emit("then-key", jd, jd, 1, *v); break;
+                case 4: v = new (raw) V(true); jdoc(*v, jd); *v = V::ObjectT(); (*v)[key_text(1).c_str()] = (SizeT64)1; emit("then-key", jd, jd, 1, *v); break;
+                case 5: v = new (raw) V(); *v = "hello, a string that owns memory"; jdoc(*v, jd); *v = ValueType::Array; emit("retag-array", jd, jd, 0, *v); break;
+                case 6: v = new (raw) V(); *v = (SizeT64)5; jdoc(*v, jd); *v = ValueType::Object; (*v)[key_text(1).c_str()] = (SizeT64)1; emit("then-key", jd, jd, 1, *v); break;
+                default: v = new (raw) V(); *v = V::ObjectT(); (*v)[key_text(1).c_str()] = (SizeT64)1; jdoc(*v, jd); v->SetPointerToValue(nullptr); emit("null-pointer", jd, jd, 0, *v);
+            }
+            v->~V();
+        }
+        fclose(out);
+        vf::g_trace = nullptr;
+        printf("EVENTS %ld\n", n);
+        vf::end_cases();
+        return 0;
+    }
     if (mode == "group" && argc >= 5) {
         vf::Rng rng(strtoull(argv[2], nullptr, 10));
         long    nr  = atol(argv[3]);
